@@ -416,7 +416,9 @@ class AtomicSaver:
                 # try to copy from file being replaced
                 stat_res = os.stat(self.dest_path)
                 file_perms = stat.S_IMODE(stat_res.st_mode)
-            except OSError:
+            except OSError as ose:
+                if ose.errno != errno.ENOENT:
+                    raise  # destination exists, but its permissions are unknown
                 # default if no destination file exists
                 file_perms = self._default_file_perms
                 do_chmod = False  # respect the umask
